@@ -57,7 +57,15 @@ def opOfWire : List String → Option COp
   | ["dr", n] => some (.dropRel (nameOfWire n))
   | _ => none
 
-def itemOfWire (toks : List String) : Option HItem :=
+/-- request-level item: the file torn by `@j<frag>` is the one written by the operation's `j`-th FS step, which is
+    only known when the model state is; it is resolved to an `HItem` during the run. -/
+inductive WItem where
+  | op (o : COp)
+  | opCrash (o : COp) (j : Nat) (cut : Option Cut)
+  | restart
+  | restartTorn (p : Path) (c : Cut)
+
+def itemOfWire (toks : List String) : Option WItem :=
   match toks with
   | ["R"] => some .restart
   | ["T", w, f] =>
@@ -74,6 +82,19 @@ def itemOfWire (toks : List String) : Option HItem :=
       else (opOfWire toks).map .op
     | none => none
 
+def opWritePath : Op Path Doc → Option Path
+  | .write p _ => some p
+  | _ => none
+
+def resolve (m : Mem) : WItem → HItem
+  | .op o => .op o
+  | .restart => .restart []
+  | .restartTorn p c => .restart [(p, c)]
+  | .opCrash o j cut =>
+    match cut, ((step m o).2.2[j - 1]?).bind opWritePath with
+    | some c, some p => if j ≥ 1 then .opCrash o j [(p, c)] else .opCrash o j []
+    | _, _ => .opCrash o j []
+
 /-- split the argument tokens (after the leading `|`) at `;`. -/
 def splitItems : List String → List String → List (List String) → List (List String)
   | [], cur, acc => (if cur.isEmpty then acc else cur.reverse :: acc).reverse
@@ -81,7 +102,7 @@ def splitItems : List String → List String → List (List String) → List (Li
     if t == ";" then splitItems ts [] (if cur.isEmpty then acc else cur.reverse :: acc)
     else splitItems ts (t :: cur) acc
 
-def parseHistory (args : List String) : Option (List HItem) :=
+def parseHistory (args : List String) : Option (List WItem) :=
   match args with
   | "|" :: rest => optMapM itemOfWire (splitItems rest [] [])
   | [] => some []
@@ -108,52 +129,44 @@ def renderAck : Ack → String
   | .okBool b => if b then "ok:1" else "ok:0"
 
 def renderSteps (l : List Nat) : String :=
-  if l.isEmpty then "-" else String.ofList (l.map (fun k => match k with | 0 => 'm' | 1 => 'M' | 2 => 'w' | 3 => 'W' | _ => '?'))
+  if l.isEmpty then "-" else String.ofList (l.map (fun k => match k with
+    | 0 => 'm' | 1 => 'M' | 2 => 't' | 3 => 'T' | 6 => 'f' | 7 => 'F' | 8 => 'n' | 9 => 'N' | 4 => 'd' | 5 => 'D' | _ => '?'))
 
 def renderOut : Out → String
   | .ack a s => renderAck a ++ "/" ++ renderSteps s
   | .reboot o n r => "[" ++ renderMem o ++ "|" ++ renderMem n ++ "|" ++ (match r with | some m => renderMem m | none => "err:open-failed") ++ "]"
 
-/-! identifying predicates of the known defect families (functions of the input history) -/
-
-/-- does this item tear a catalog file while an operation is in flight? -/
-def tearsInFlight (m : Mem) : HItem → Bool
-  | .opCrash o j (some _) =>
-    match (step m o).2.2[j - 1]? with
-    | some (.write _ _) => j ≥ 1
-    | _ => false
-  | _ => false
-
-/-- run the model, producing per item (rendered output, failure class if the item is a reboot). -/
-def runClassified (st : St) (stale : Bool) : List HItem → List (Out × String)
+/-- run the model on the request-level history (no known defect class is left for C16: every Spec failure is
+    `unclassified`). -/
+def runW (st : St) : List WItem → List Out
   | [] => []
   | it :: rest =>
-    -- a schema removed in memory by drop_relation stays on disk until the next schema save
-    let stale' : Bool :=
-      match it with
-      | .op (.dropRel n) => stale || (aGet st.mem.schemas n).isSome
-      | .opCrash (.dropRel n) _ _ => stale || (aGet st.mem.schemas n).isSome
-      | .op o => if (step st.mem o).2.2.any (fun op => stepKind op == 3) then false else stale
-      | _ => stale
-    let cls : String :=
-      match it with
-      | .restartTorn _ _ => "crash_after_unsynced_catalog_write"
-      | _ => if tearsInFlight st.mem it then "crash_inside_catalog_write"
-             else if stale' then "drop_relation_schema_not_saved" else "unclassified"
-    match runItem st it with
-    | (o, some st') => (o, cls) :: runClassified st' stale' rest
-    | (o, none) => [(o, cls)]
+    match runItem st (resolve st.mem it) with
+    | (o, some st') => o :: runW st' rest
+    | (o, none) => [o]
 
-def judge (model : List (Out × String)) (impl : List String) : String :=
+def splitMem (s : String) : String × String :=
+  match s.splitOn ")S(" with
+  | [a, b] => (a, b)
+  | _ => (s, "")
+
+/-- Spec on the implementation's own tokens: the engine reopened and each catalog is the old or the new one. -/
+def judge (model : List Out) (impl : List String) : String :=
+  if impl.any (fun t => t.endsWith "|err:open-failed]") then specFail "unclassified" "engine-does-not-open" else
   if model.length != impl.length then specFail "unclassified" "output-shape" else
-  let bad := (model.zip impl).filterMap (fun ((o, cls), tok) =>
+  let bad := (model.zip impl).filterMap (fun (o, tok) =>
     match o with
     | .ack _ _ => none
     | .reboot _ _ _ =>
       match ((tok.drop 1).dropEnd 1).toString.splitOn "|" with
       | [old, new, got] =>
-        if got == old || got == new then none
-        else some (specFail cls (if got == "err:open-failed" then "engine-does-not-open" else "recovered-neither-old-nor-new"))
+        if got == "err:open-failed" then some (specFail "unclassified" "engine-does-not-open")
+        else
+          let (ro, so) := splitMem old
+          let (rn, sn) := splitMem new
+          let (rg, sg) := splitMem got
+          if (rg == ro || rg == rn) && (sg == so || sg == sn) then none
+          else some (specFail "unclassified" "catalog-neither-old-nor-new")
       | _ => some (specFail "unclassified" "unparsable-reboot-token"))
   match bad with
   | [] => specOk
@@ -164,11 +177,11 @@ def run : Handler := fun args impl =>
   | none => badReq
   | some h =>
     let h := h ++ [.restart]
-    let outs := runClassified {} false h
-    let nt := outs.any (fun (o, _) => match o with
+    let outs := runW {} h
+    let nt := outs.any (fun o => match o with
       | .reboot o n g => o != {} || n != {} || g != some {}
       | _ => false)
-    { model := " ".intercalate (outs.map (fun (o, _) => renderOut o)),
+    { model := " ".intercalate (outs.map renderOut),
       spec := judge outs (impl.splitOn " "),
       nt := nt }
 
